@@ -21,6 +21,7 @@
 import LtVerif.Proofs.Cgi
 import LtVerif.Proofs.FcgiRun
 import LtVerif.Proofs.Scgi
+import LtVerif.Proofs.ScgiBuf
 import LtVerif.Proofs.Proxy
 import LtVerif.Proofs.ProxyHead
 import LtVerif.Proofs.ProxyWf
@@ -364,6 +365,95 @@ theorem c09_scgi_e2e (o : CgiOpts) (ha : o.authorizer = false) (r : CgiReq) (hn 
       simp only [List.head?_cons, Option.some.injEq] at hh
       simp only [List.cons_append, List.head?_cons, hh, hb, intDec_ofNat]
   · rw [hb]; exact rawRun_reqlen _ seg0 segs
+
+/-! ## scgi_create_env() as it is written: placeholder, in-place header, chunk offset -/
+
+/-- mod_scgi.c:scgi_create_env(), LI_PROTOCOL_SCGI, step by step (`ScgiBuf.scgi`: ten blanks, the
+    variables appended behind them, "<len>:" rendered afterwards and copied right-aligned INTO the
+    blanks, ',' appended, the unused blanks hidden by the chunk offset, wb.bytes_in / bytes_out
+    corrected by that offset): for EVERY variable list below 10^9 bytes, body length and queued
+    body the queue a reader sees, wb_reqlen and the rest of reqbody_queue are exactly those of the
+    front-to-back encoder `Scgi.createEnv` (so c09_scgi_roundtrip / c09_scgi_e2e speak about the
+    bytes of the real buffer); the hidden bytes are the 9 - digits unused blanks, bytes_out is
+    0 again and bytes_in counts exactly the visible bytes.
+    (At 10^9 bytes or more the C code's `offset = 10 - len` wraps: `ScgiBuf.scgi` = none; not
+    reachable while the request header is limited to 64 KiB - not a theorem here.) -/
+theorem c09_scgi_buffer (env : List (Bytes × Bytes)) (bodyLen : Int) (pending : Bytes)
+    (h : (Scgi.pairs (env ++ [(ofString "SCGI", ofString "1")])).length < 10 ^ 9) :
+    let k := 9 - (natDec (Scgi.pairs (env ++ [(ofString "SCGI", ofString "1")])).length).length
+    ScgiBuf.scgi env bodyLen pending =
+      some { hidden := List.replicate k 32, offset := k,
+             bytesIn := ((Scgi.createEnv env bodyLen pending).out.length : Int), bytesOut := 0,
+             st := Scgi.createEnv env bodyLen pending } ∧
+    k + (natDec (Scgi.pairs (env ++ [(ofString "SCGI", ofString "1")])).length).length + 1 = 10 := by
+  intro k
+  have hl := natDec_length_le _ 8 h
+  have hne := (natDec_spec (Scgi.pairs (env ++ [(ofString "SCGI", ofString "1")])).length).1
+  have hpos : 0 < (natDec (Scgi.pairs (env ++ [(ofString "SCGI", ofString "1")])).length).length :=
+    List.length_pos_iff.mpr hne
+  refine ⟨?_, by omega⟩
+  unfold ScgiBuf.scgi
+  have hb : (ScgiBuf.placeholder ++ Scgi.pairs (env ++ [(ofString "SCGI", ofString "1")])).length - 10
+      = (Scgi.pairs (env ++ [(ofString "SCGI", ofString "1")])).length := by
+    simp [ScgiBuf.placeholder]
+  simp only [hb]
+  have htl : (natDec (Scgi.pairs (env ++ [(ofString "SCGI", ofString "1")])).length ++ [colon]).length ≤ 10 := by
+    simp only [List.length_append, List.length_singleton]; omega
+  have hk : 10 - (natDec (Scgi.pairs (env ++ [(ofString "SCGI", ofString "1")])).length ++ [colon]).length = k := by
+    simp only [List.length_append, List.length_singleton]; omega
+  rw [if_neg (by omega), ScgiBuf.poke_placeholder _ _ htl, hk]
+  have he : List.replicate k 32 ++ (natDec (Scgi.pairs (env ++ [(ofString "SCGI", ofString "1")])).length ++ [colon])
+        ++ Scgi.pairs (env ++ [(ofString "SCGI", ofString "1")]) ++ [44]
+      = List.replicate k 32 ++ Scgi.encodeHeader env := by
+    simp [Scgi.encodeHeader, List.append_assoc]
+  rw [he, ScgiBuf.commit_eq]
+  rfl
+
+example : ScgiBuf.scgi [(ofString "CONTENT_LENGTH", ofString "2")] 2 (ofString "hi") =
+    some { hidden := List.replicate 7 32, offset := 7, bytesIn := 30, bytesOut := 0,
+           st := { out := ofString "24:CONTENT_LENGTH\x002\x00SCGI\x001\x00,hi", reqlen := 30, pending := [] } } := by
+  decide
+
+/-- scgi_create_env(), LI_PROTOCOL_UWSGI, step by step (`ScgiBuf.uwsgi`: the variables are
+    appended behind ten blanks, the 4-byte packet header is poked into b[6..9], the first 6
+    blanks are hidden by the chunk offset): for EVERY variable list the outcome is that of
+    `Uwsgi.createEnv` - the same refusal (400 / 431), otherwise the same visible queue, wb_reqlen
+    and reqbody_queue, with exactly 6 hidden blanks, bytes_out 0, bytes_in = visible bytes -/
+theorem c09_uwsgi_buffer (env : List (Bytes × Bytes)) (bodyLen : Int) (pending : Bytes) :
+    ScgiBuf.uwsgi env bodyLen pending =
+      match Uwsgi.createEnv env bodyLen pending with
+      | .status c => .status c
+      | .ok st => .ok { hidden := List.replicate 6 32, offset := 6, bytesIn := (st.out.length : Int),
+                        bytesOut := 0, st := st } := by
+  unfold ScgiBuf.uwsgi Uwsgi.createEnv
+  have hp := uwsgi_addAll_prefix env ScgiBuf.placeholder []
+  rw [List.append_nil] at hp
+  rw [hp]
+  cases ha : Uwsgi.addAll [] env with
+  | none => simp
+  | some vars =>
+    have hlen : (ScgiBuf.placeholder ++ vars).length - 10 = vars.length := by simp [ScgiBuf.placeholder]
+    simp only [Option.map_some, hlen]
+    by_cases hfit : vars.length > Extracted.C09.ushrtMax
+    · simp [hfit]
+    · simp only [hfit, ↓reduceIte]
+      have hpk := ScgiBuf.poke_placeholder vars
+        [0, (vars.length % 256).toUInt8, (vars.length / 256 % 256).toUInt8, 0] (by simp)
+      simp only [List.length_cons, List.length_nil] at hpk
+      rw [hpk]
+      have he : List.replicate (10 - (0 + 1 + 1 + 1 + 1)) (32 : UInt8) ++
+            [0, (vars.length % 256).toUInt8, (vars.length / 256 % 256).toUInt8, 0] ++ vars
+          = List.replicate 6 32 ++ Uwsgi.encodeHeader vars := by
+        simp [Uwsgi.encodeHeader, Uwsgi.le16]
+      rw [he, ScgiBuf.commit_eq]
+
+example : ScgiBuf.uwsgi [(ofString "A", ofString "bc")] 0 [] =
+    .ok { hidden := List.replicate 6 32, offset := 6, bytesIn := 11, bytesOut := 0,
+          st := { out := [0, 7, 0, 0, 1, 0, 65, 2, 0, 98, 99], reqlen := 11, pending := [] } } := by
+  decide
+
+example : (Scgi.pairs ([(ofString "CONTENT_LENGTH", ofString "2")] ++ [(ofString "SCGI", ofString "1")])).length
+    < 10 ^ 9 := by decide
 
 /-- scgi_create_env() (uwsgi): when the request is accepted the packet decodes to exactly the
     variables and the body; it is refused (400 / 431) only when a name, a value or the whole
